@@ -79,7 +79,7 @@ static const cfg_t cfgs[] = {
 enum { E_REG, E_SIG, E_BCAST, E_RET };
 typedef struct {
     int type, w, rc;
-    double now;
+    double now, now_after; /* now_after: clock when the signalling call returned */
 } ev_t;
 static ev_t EV[24];
 static int nEV;
@@ -98,7 +98,7 @@ static void add_ev(int type, int w, int rc)
     EV[nEV].type = type;
     EV[nEV].w = w;
     EV[nEV].rc = rc;
-    EV[nEV].now = abtmc_now();
+    EV[nEV].now = EV[nEV].now_after = abtmc_now();
     nEV++;
 }
 
@@ -149,6 +149,7 @@ static void signaller_fn(void *arg)
             add_ev(E_BCAST, -1, 0);
             OK(ABT_cond_broadcast(CV));
         }
+        EV[nEV - 1].now_after = abtmc_now();
         OK(ABT_mutex_unlock(M));
     }
     /* clean-up: once everybody has registered, release whoever is left */
@@ -156,6 +157,7 @@ static void signaller_fn(void *arg)
     OK(ABT_mutex_lock(M));
     add_ev(E_BCAST, -1, 0);
     OK(ABT_cond_broadcast(CV));
+    EV[nEV - 1].now_after = abtmc_now();
     OK(ABT_mutex_unlock(M));
 }
 
@@ -166,9 +168,10 @@ static int sigpos[8], sigtype[8], nsig;
 
 static int possibly_gone(int w, int p)
 {
-    /* waiter w may have left the queue on its own before event p */
+    /* waiter w may have left the queue on its own before the signal p took
+     * effect, which happens somewhere between its call and its return */
     return retrc[w] == ABT_ERR_COND_TIMEDOUT && C->w[w].dl != D_NONE &&
-           DL[C->w[w].dl] <= EV[p].now;
+           DL[C->w[w].dl] <= EV[p].now_after;
 }
 
 static int explain(int si, int *assigned /* per waiter: sig index or -1 */)
